@@ -18,9 +18,14 @@ THEOREMS = [
     "C10.query_frames_balanced",
     "C10.query_no_leaked_frames",
     "C10.query_inside_frame_rolls_back",
+    # negated query goal `NOT <atom>` (RreModel/C09/Ext.lean)
+    "C10.neg_query_effect",
+    "C10.neg_not_provable_restores",
+    "C10.neg_query_frames_balanced",
 ]
-LEAN_TARGETS = ["RreModel.C10.Theorems", "RreModel.C10.SearchTheorems"]
-LEAN_FILES = ["RreModel/C09/Model.lean", "RreModel/C09/Spec.lean", "RreModel/C09/Lemmas.lean", "RreModel/C09/Candidates.lean"]
+LEAN_TARGETS = ["RreModel.C10.Theorems", "RreModel.C10.SearchTheorems", "RreModel.C09.ExtTheorems"]
+LEAN_FILES = ["RreModel/C09/Model.lean", "RreModel/C09/Spec.lean", "RreModel/C09/Lemmas.lean", "RreModel/C09/Candidates.lean",
+              "RreModel/C09/Ext.lean", "RreModel/C09/ExtTheorems.lean"]
 EXTRA_BINS = ["c09"]
 N_B = {"quick": 1500, "thorough": 20000}
 
@@ -122,6 +127,13 @@ RULE = ("part A: cases = corpus + EVERY sequence of length <= 6 over the alphabe
         "(absent object, non-object: Err after earlier actions wrote; object: success) actions before / after their Set, on chains "
         "with an underivable last conjunct, wrong-value rivals that fire at depth 0 (what BFS / iterative reach), rules with no Set at "
         "all, and random And/Or KBs with random action lists over facts holding arrays and objects. "
+        "(3) N_B/10 NEGATED queries `NOT <atom>` (closed-world negation of a C09 goal): the positive form is false in the initial facts but "
+        "derivable - at once or only through a chain of 1..3 sub-goal levels - through one or several candidate rules (chained, direct, a second "
+        "chain, wrong-value and dead-end rivals, conjunctions over two derived facts, rules with Append / Retract beside their Set), each "
+        "problem under DFS with max_solutions 1, 2, 3 AND 5 (the shared solution list also counts the sub-goals' proofs, so these take "
+        "different arms of the candidate loop), at a random depth, under BFS and iterative, and as the positive query with max_solutions > 1: "
+        "the verdict `not provable` is reached THROUGH found proofs, each of which must have been rolled back; (4) N_B/10 knowledge bases "
+        "with DISABLED rules (see C09) under every strategy. "
         "Oracle (iii), evaluated first: not provable => get_all_facts after == before, undo depth after == 0 whatever the answer; "
         "one failing case per signature is minimised with the harness shrinker.")
 TRUSTED = [
@@ -161,7 +173,8 @@ LEVEL_TEXT = ("Lean 4 theorems (kernel-checked, unbounded: every operation seque
               "and by evaluating the same Spec predicate on the implementation's observations. Part B (failed query leaves facts "
               "untouched) is checked by the C09 harness oracle (iii) on every strategy and proved on the search model (DFS, BFS, "
               "iterative; rules with Set / Append / Retract / MethodCall actions, failing actions included: rule_firing_rolls_back, "
-              "query_effect, not_provable_restores).")
+              "query_effect, not_provable_restores; negated query goals `NOT <atom>` - whose `not provable` is reached through found and "
+              "discarded proofs - for every max_solutions: neg_query_effect, neg_not_provable_restores, neg_query_frames_balanced).")
 LEVEL_NOTE = ("Trusted: Lean kernel + {propext, Classical.choice, Quot.sound}; hand-written model tied to the code by differential "
               "testing only; harness/driver glue; hook verif_undo_depth. Pre-fix code (commit discards) violates the theorem: "
               "C10.discard_on_commit_counterexample.")
